@@ -23,4 +23,5 @@ def run(ck):
     codec.spec_socks_request_reader(ck, 'PasswordAuth')
     codec.spec_socks_response_reader(ck)
     replies.spec_h11c_connect(ck)
+    replies.spec_http_readers(ck)
     ck.post_filter = lambda o: not o.label.startswith(('C11/', 'C12/', 'C03/', 'C06/', 'C07/'))
